@@ -595,6 +595,15 @@ def writer_close(u: U):
 
     wr = u.obj("WebSocketWriter", {"_closing": False}, {"send_frame": send_frame}, shared=False)
     f = u.load("aiohttp._websocket.writer", "WebSocketWriter.close")
+
+    def hook(y):
+        # the close frame is on the wire once send_frame suspends (in its drain): from here on other tasks run
+        u.check("C13.writer.closing_before_first_suspension", fields(wr)["_closing"] is True,
+                "_closing is already set when close() first suspends: a send_frame(data) from another task during the "
+                "drain of the close frame is refused, so no data frame follows the close frame on the wire",
+                known=[("F13c", True)], witness={"schedule": "close() suspended in drain; other task send_frame(TEXT)"})
+
+    u.suspend_hook = hook
     out = u.call(f, wr, 1000, b"bye")
     u.check("C13.writer.close_marks_closing", fields(wr)["_closing"] is True,
             f"_closing is set on every way out of close() ({'ok' if out.ok else type(out.exc).__name__})")
